@@ -56,6 +56,7 @@ func c17MoreEnumerate(tier string, emit func(string, any)) {
 			emit("stream-expr", c17Case{Kind: "stream-expr", Src: "R" + s})
 		}
 	})
+	c17OddEnumerate(emit)
 	for _, p := range c17HookPrograms {
 		for k := 0; k < c17HookKinds; k++ {
 			emit("acting-hooks", c17Case{Kind: "acting-hooks", Src: p, Ext: k})
@@ -299,4 +300,151 @@ func c17RenameX(src, to string) string {
 		sb.WriteByte(src[i])
 	}
 	return sb.String()
+}
+
+// "odd-extensions": extensions that behave in every way the extension API allows other than the plain one.
+const (
+	oddEmptyRegex      = iota // a regex that can match the empty string: never a match, never a loop
+	oddNilResult              // a stream parser that returns (nil, nil)
+	oddMatchedNothing         // a stream parser that reports Matched without consuming anything
+	oddParserError            // a stream parser that returns an error when it sees "Q!"
+	oddHandlerError           // handler of E<n> returns an error
+	oddHandlerNil             // handler of E<n> returns (nil, "", nil)
+	oddOptionalGroup          // E(\d+)(x)? : an unmatched optional group arrives as ""
+	oddNoGroupsDisplay        // stream parser for C<a>T<b> that returns no Groups but a Display text, handler returns a detail text
+	oddKinds
+)
+
+var c17OddPrograms = []string{
+	"1", "x", "x + 1", "E5", "E5 + 1", "1 + E5", "[E5, E5]", "xf(E5)", "`{E5}`", "func g(){ E5 }; g()", "y = E5; y", "E5x", "E5x + 1", "E", "Ex", "Z", "ZZ + 1", "Q", "Q!", "1 + Q!", "[Q!]", "Q! + 1", "`{Q!}`", "func g(){ Q! }; g()",
+	"C1T2", "C1T2 + 1", "1 + C1T2", "[C1T2]", "C1T", "C1", "2d6 + E5", "E5 ? 1 : 2", "0 ? E5 : 2", "1 ? 2 : E5", "&q = E5; q + q", "i = 0; while i < 2 { i = i + 1; E5 }", "^stA:E5", "^stA+E5", "E5\n+ 1", "E5; 7", "E5 E5", "E5E5",
+}
+
+func c17OddEnumerate(emit func(string, any)) {
+	for _, p := range c17OddPrograms {
+		for k := 0; k < oddKinds; k++ {
+			emit("odd-extensions", c17Case{Kind: "odd-extensions", Src: p, Ext: k})
+		}
+	}
+}
+
+func c17OddRun(c c17Case, res *harn.Result, viol func(sig, what string), newVM func() *ds.Context) {
+	vm := newVM()
+	calls := 0
+	five := func(ctx *ds.Context, groups []string, payload any) (*ds.VMValue, string, error) {
+		calls++
+		return ds.NewIntVal(5), "", nil
+	}
+	var seenGroups [][]string
+	switch c.Ext {
+	case oddEmptyRegex:
+		_ = vm.RegCustomDice(`Z*`, five)
+	case oddNilResult:
+		_ = vm.RegCustomDiceParser(func(ctx *ds.Context, st *ds.CustomDiceStream) (*ds.CustomDiceParseResult, error) {
+			st.Read()
+			return nil, nil
+		}, five)
+	case oddMatchedNothing:
+		_ = vm.RegCustomDiceParser(func(ctx *ds.Context, st *ds.CustomDiceStream) (*ds.CustomDiceParseResult, error) {
+			return &ds.CustomDiceParseResult{Matched: true}, nil
+		}, five)
+	case oddParserError:
+		_ = vm.RegCustomDiceParser(func(ctx *ds.Context, st *ds.CustomDiceStream) (*ds.CustomDiceParseResult, error) {
+			if r, ok := st.Read(); ok && r == 'Q' {
+				if r2, ok2 := st.Peek(); ok2 && r2 == '!' {
+					return nil, fmt.Errorf("custom parser refuses Q!")
+				}
+			}
+			st.ResetAttempt()
+			return &ds.CustomDiceParseResult{Matched: false}, nil
+		}, five)
+	case oddHandlerError:
+		_ = vm.RegCustomDice(`E(\d+)`, func(ctx *ds.Context, groups []string, payload any) (*ds.VMValue, string, error) {
+			calls++
+			return nil, "", fmt.Errorf("handler refuses")
+		})
+	case oddHandlerNil:
+		_ = vm.RegCustomDice(`E(\d+)`, func(ctx *ds.Context, groups []string, payload any) (*ds.VMValue, string, error) {
+			calls++
+			return nil, "", nil
+		})
+	case oddOptionalGroup:
+		_ = vm.RegCustomDice(`E(\d+)(x)?`, func(ctx *ds.Context, groups []string, payload any) (*ds.VMValue, string, error) {
+			calls++
+			seenGroups = append(seenGroups, append([]string{}, groups...))
+			return ds.NewIntVal(5), "", nil
+		})
+	case oddNoGroupsDisplay:
+		_ = vm.RegCustomDiceParser(func(ctx *ds.Context, st *ds.CustomDiceStream) (*ds.CustomDiceParseResult, error) {
+			if r, ok := st.Read(); !ok || r != 'C' {
+				st.ResetAttempt()
+				return &ds.CustomDiceParseResult{Matched: false}, nil
+			}
+			if _, ok := st.ReadDigits(); !ok {
+				st.ResetAttempt()
+				return &ds.CustomDiceParseResult{Matched: false}, nil
+			}
+			if r, ok := st.Read(); !ok || r != 'T' {
+				st.ResetAttempt()
+				return &ds.CustomDiceParseResult{Matched: false}, nil
+			}
+			if _, ok := st.ReadDigits(); !ok {
+				st.ResetAttempt()
+				return &ds.CustomDiceParseResult{Matched: false}, nil
+			}
+			return &ds.CustomDiceParseResult{Matched: true, Display: "SHOWN"}, nil
+		}, func(ctx *ds.Context, groups []string, payload any) (*ds.VMValue, string, error) {
+			calls++
+			seenGroups = append(seenGroups, append([]string{}, groups...))
+			return ds.NewIntVal(3), "HOW", nil
+		})
+	}
+	got := c17Eval(vm, c.Src)
+	if got.panicSite != "" {
+		viol(got.panicSite, fmt.Sprintf("program %q with odd extension %d: panic", c.Src, c.Ext))
+		return
+	}
+	base := c17Eval(newVM(), c.Src)
+	same := got.err == base.err && got.ret == base.ret && got.rest == base.rest && got.attrs == base.attrs
+	res.Outcome = fmt.Sprintf("odd/%d/calls>0=%v/err=%v", c.Ext, calls > 0, got.err != "")
+	hasE := strings.Contains(c.Src, "E5")
+	switch c.Ext {
+	case oddEmptyRegex, oddNilResult, oddMatchedNothing:
+		if c.Ext == oddEmptyRegex && strings.Contains(c.Src, "Z") {
+			break // Z* matches a run of Z non-emptily: there it acts
+		}
+		if calls != 0 || !same {
+			viol(fmt.Sprintf("C17:odd-extension-not-transparent:%d", c.Ext), fmt.Sprintf("program %q: an extension that can never match ran %d handlers; result %+v vs %+v", c.Src, calls, got, base))
+		}
+	case oddParserError:
+		if strings.Contains(c.Src, "Q!") {
+			if got.err == "" && strings.HasPrefix(strings.TrimLeft(c.Src, "1 +[`{"), "Q!") && !strings.Contains(c.Src, "func") {
+				viol("C17:parser-error-lost", fmt.Sprintf("program %q: the custom parser returned an error at the operand, the run reports success (%s)", c.Src, got.ret))
+			}
+		} else if !same {
+			viol("C17:odd-extension-not-transparent:3", fmt.Sprintf("program %q: %+v vs %+v", c.Src, got, base))
+		}
+	case oddHandlerError, oddHandlerNil:
+		if calls > 0 && got.err == "" {
+			viol("C17:handler-failure-lost", fmt.Sprintf("program %q: the handler failed (%d calls), the run reports success (%s)", c.Src, calls, got.ret))
+		}
+		if !hasE && !same {
+			viol(fmt.Sprintf("C17:odd-extension-not-transparent:%d", c.Ext), fmt.Sprintf("program %q: %+v vs %+v", c.Src, got, base))
+		}
+	case oddOptionalGroup:
+		for _, g := range seenGroups {
+			if len(g) != 3 || g[1] != "5" || (g[2] != "" && g[2] != "x") || g[0] != "E5"+g[2] {
+				viol("C17:groups", fmt.Sprintf("program %q: groups %q for the pattern E(\\d+)(x)?", c.Src, g))
+			}
+		}
+	case oddNoGroupsDisplay:
+		for _, g := range seenGroups {
+			if len(g) != 1 || g[0] != "C1T2" {
+				viol("C17:groups", fmt.Sprintf("program %q: a parser that returns no groups must give the handler the matched text, got %q", c.Src, g))
+			}
+		}
+		if c.Src == "C1T2 + 1" && got.err == "" && !strings.Contains(got.detail, "HOW") {
+			viol("C17:handler-detail-text-lost", fmt.Sprintf("program %q: the handler's detail text does not appear in the process text %q", c.Src, got.detail))
+		}
+	}
 }
